@@ -53,28 +53,11 @@ func (r *ReduceMin) Init(n *onnx.NodeProto) error {
 
 // Apply applies the reduceMin operator.
 func (r *ReduceMin) Apply(inputs []tensor.Tensor) ([]tensor.Tensor, error) {
-	input := tensor.New(tensor.WithBacking(inputs[0].Data()), tensor.WithShape(inputs[0].Shape()...))
-
-	axes := make([]int, len(r.axes))
-	for i, axis := range r.axes {
-		axes[i] = ops.ConvertNegativeAxis(axis, len(input.Shape()))
-	}
-
-	out, err := input.Min(axes...)
+	out, err := reduceAxes(inputs[0], r.axes, r.keepDims, func(t *tensor.Dense, axis int) (*tensor.Dense, error) {
+		return t.Min(axis)
+	})
 	if err != nil {
 		return nil, err
-	}
-
-	if r.keepDims {
-		newShape := input.Shape()
-		for _, axes := range axes {
-			newShape[axes] = 1
-		}
-
-		err := out.Reshape(newShape...)
-		if err != nil {
-			return nil, err
-		}
 	}
 
 	return []tensor.Tensor{out}, nil
